@@ -117,6 +117,8 @@ LongInt LocHandleCnt; /* mom. verwendeter lokaler Handle            */
 typedef struct sSymbolEntry {
     TTree      Tree;
     Boolean    Defined, Used, Changeable;
+    Boolean    Moved;        /* value changed after definition (label moved by padding) */
+    LargeInt   EnteredValue; /* ...then this is the value the label was defined with */
     TempResult SymWert;
     PCrossRef  RefList;
     Byte       FileNum;
@@ -2129,7 +2131,8 @@ static Boolean SymbolAdder(PTree* PDest, PTree Neu, void* pData) {
                         != (*Node)->SymWert.Contents.Float))
                 || ((NewEntry->SymWert.Typ == TempInt)
                     && (NewEntry->SymWert.Contents.Int
-                        != (*Node)->SymWert.Contents.Int))) {
+                        != ((*Node)->Moved ? (*Node)->EnteredValue
+                                           : (*Node)->SymWert.Contents.Int)))) {
                 if ((!Repass) && (JmpErrors > 0)) {
                     if (ThrowErrors) {
                         ErrorCount -= JmpErrors;
@@ -2279,6 +2282,13 @@ void PrintSymTree(char* Name) {
  * ------------------------------------------------------------------------ */
 
 void ChangeSymbol(PSymbolEntry pEntry, LargeInt Value) {
+    /* remember the value the symbol was entered with: the next pass enters it
+       with that value again, and must compare against it */
+
+    if (!pEntry->Moved && (pEntry->SymWert.Typ == TempInt)) {
+        pEntry->EnteredValue = pEntry->SymWert.Contents.Int;
+        pEntry->Moved        = True;
+    }
     as_tempres_set_int(&pEntry->SymWert, Value);
 }
 
